@@ -6,6 +6,7 @@ use crate::drive::*;
 use crate::env::*;
 use crate::gen;
 use crate::prng::Tape;
+use crate::refmodel::codec::RefEnc;
 use crate::refmodel::container::build_xz;
 use crate::runner::{Ctx, SimpleProp, Tier};
 use crate::scenario::{Scenario, Violation};
@@ -26,7 +27,194 @@ fn draw_trailing(t: &mut Tape, second: &[u8]) -> (Vec<u8>, &'static str) {
     }
 }
 
+/// A container of 2-3 raw payloads decoded in place by ONE reused raw decoder
+/// with a reset between them (the documented use of `reset`): size-bounded
+/// payloads first, optionally a marker-terminated one last.
+fn gen_reused(t: &mut Tape) -> Scenario {
+    let mut sc = Scenario::new("c11");
+    sc.set_i("reused", 1);
+    let lzma2 = t.below(3) == 0;
+    sc.set_i("lzma2", lzma2 as u64);
+    let n = t.range(2, 3) as usize;
+    let mut sizes = Vec::new();
+    let mut notes = Vec::new();
+    if lzma2 {
+        for i in 0..n {
+            let b = gen_lzma2(t, 1200, true);
+            notes.push(format!("p{}: {}", i, b.note));
+            sc.set_b(&format!("p{}", i), b.bytes);
+            sc.set_b(&format!("e{}", i), b.expect);
+            sizes.push(0);
+        }
+    } else {
+        let props = gen::draw_props(t, false);
+        let dict = [1u64, 16, 64, 4096, 1 << 16][t.below(5) as usize];
+        RawSpec { lc: props.lc, lp: props.lp, pb: props.pb, dict: dict as u32, size: None }.store(&mut sc);
+        let cfg = gen::draw_cfg(t);
+        let last_marker = t.below(2) == 1;
+        for i in 0..n {
+            let mut enc = RefEnc::new(props, dict);
+            let target = match t.below(3) {
+                0 => t.range(0, 12),
+                1 => t.range(1, 200),
+                _ => t.range(1, 1500),
+            };
+            gen::gen_program(t, &cfg, &mut enc, target, 4000, &mut gen::ProgStats::default());
+            let marker = last_marker && i == n - 1;
+            if marker {
+                enc.encode_end_marker();
+            }
+            let bytes = enc.finish_segment();
+            notes.push(format!("p{}: out={} marker={}", i, enc.model.out.len(), marker));
+            // how the size for this payload is announced: 0 = constructor/Some(Some(n)),
+            // 1 = reset(None) when the size in effect is already right
+            sizes.push(if marker { u64::MAX } else { enc.model.out.len() as u64 });
+            sc.set_b(&format!("p{}", i), bytes);
+            sc.set_b(&format!("e{}", i), enc.model.out.clone());
+        }
+    }
+    sc.set_l("sizes", sizes);
+    sc.set_i("n", n as u64);
+    sc.set_i("keep_if_same", t.below(2));
+    // trailing bytes after the last payload only when it is size-bounded LZMA
+    let trailing = if !lzma2 && sc.l("sizes")[n - 1] != u64::MAX && t.below(2) == 1 {
+        let k = t.range(1, 20) as usize;
+        gen::draw_bytes(t, k)
+    } else {
+        Vec::new()
+    };
+    sc.set_b("trailing", trailing);
+    sc.set_i("rk", [RK_SIM, RK_SLICE, RK_CURSOR, RK_BUFREADER][t.below(4) as usize]);
+    sc.set_i("bufcap", t.range(1, 200));
+    sc.set_l("src_script", gen::draw_script(t));
+    sc.note = format!("one reused {} over a container: {}", if lzma2 { "Lzma2Decoder" } else { "LzmaDecoder" }, notes.join("; "));
+    sc
+}
+
+fn exec_reused(sc: &Scenario, ctx: &mut Ctx) -> Vec<Violation> {
+    use lzma_rs::decompress::raw::{Lzma2Decoder, LzmaDecoder, LzmaParams, LzmaProperties};
+    let lzma2 = sc.i("lzma2") == 1;
+    let n = sc.i("n") as usize;
+    let sizes = sc.l("sizes");
+    let raw = RawSpec::load(sc);
+    let mut input = Vec::new();
+    let mut ends = Vec::new();
+    for i in 0..n {
+        input.extend_from_slice(sc.b(&format!("p{}", i)));
+        ends.push(input.len());
+    }
+    input.extend_from_slice(sc.b("trailing"));
+    ctx.stats.hit(if lzma2 { "arm.reused_lzma2_decoder_over_a_container" } else { "arm.reused_lzma_decoder_over_a_container" });
+    if sizes.last() == Some(&u64::MAX) {
+        ctx.stats.hit("probe.reused_decoder_switched_to_marker_termination");
+    }
+    let size_of = |i: usize| if sizes[i] == u64::MAX { None } else { Some(sizes[i]) };
+    let keep = sc.i("keep_if_same") == 1;
+    // (verdict, output, reader position) per payload
+    let mut got: Vec<(Verdict, Vec<u8>, usize)> = Vec::new();
+    macro_rules! chain {
+        ($r:expr, $pos:expr) => {{
+            let res = guarded(|| {
+                let mut d1 = None;
+                let mut d2 = None;
+                if lzma2 {
+                    d2 = Some(Lzma2Decoder::new());
+                } else {
+                    let params = LzmaParams::new(LzmaProperties { lc: raw.lc, lp: raw.lp, pb: raw.pb }, raw.dict, size_of(0));
+                    match LzmaDecoder::new(params, None) {
+                        Ok(d) => d1 = Some(d),
+                        Err(e) => {
+                            got.push((Verdict::Err(e.to_string()), Vec::new(), 0));
+                            return;
+                        }
+                    }
+                }
+                for i in 0..n {
+                    if i > 0 {
+                        if let Some(d) = d1.as_mut() {
+                            if keep && size_of(i) == size_of(i - 1) {
+                                d.reset(None);
+                            } else {
+                                d.reset(Some(size_of(i)));
+                            }
+                        }
+                        if let Some(d) = d2.as_mut() {
+                            d.reset();
+                        }
+                    }
+                    let mut out = Vec::new();
+                    let v = if let Some(d) = d1.as_mut() {
+                        d.decompress($r, &mut out).map_err(|e| e.to_string())
+                    } else {
+                        d2.as_mut().unwrap().decompress($r, &mut out).map_err(|e| e.to_string())
+                    };
+                    let v = match v {
+                        Ok(()) => Verdict::Ok,
+                        Err(e) => Verdict::Err(e),
+                    };
+                    let stop = !v.is_ok();
+                    let pos = $pos($r);
+                    crate::heap::driver(|| got.push((v, out, pos)));
+                    if stop {
+                        return;
+                    }
+                }
+            });
+            res
+        }};
+    }
+    let res = match sc.i("rk") {
+        RK_SLICE => {
+            let mut r: &[u8] = &input;
+            let total = input.len();
+            chain!(&mut r, |r: &mut &[u8]| total - r.len())
+        }
+        RK_CURSOR => {
+            let mut r = std::io::Cursor::new(&input[..]);
+            chain!(&mut r, |r: &mut std::io::Cursor<&[u8]>| r.position() as usize)
+        }
+        RK_BUFREADER => {
+            let inner = ShortReader::new(&input, sc.l("src_script"), Faults::none());
+            let mut r = BufReader::with_capacity((sc.i("bufcap") as usize).max(1), inner);
+            chain!(&mut r, |r: &mut BufReader<ShortReader>| r.get_ref().pos - r.buffer().len())
+        }
+        _ => {
+            let mut r = SimSource::new(&input, sc.l("src_script"), Faults::none());
+            chain!(&mut r, |r: &mut SimSource| r.consumed())
+        }
+    };
+    ctx.stats.eval(sc.hash(), true, 2 * n as u64);
+    if let Err(p) = res {
+        return vec![Violation::new("panic", &panic_locus(&p), p, sc)];
+    }
+    let locus = if lzma2 { "raw::Lzma2Decoder reused" } else { "raw::LzmaDecoder reused" };
+    for i in 0..n {
+        let exp = sc.b(&format!("e{}", i));
+        let Some((v, out, pos)) = got.get(i) else { break };
+        if !v.is_ok() || out != exp {
+            return vec![Violation::new(
+                "chained_decode_failed",
+                locus,
+                format!("payload #{} (size in effect {:?}): {} with {} bytes, expected {}", i + 1, size_of(i), v.short(), out.len(), exp.len()),
+                sc,
+            )];
+        }
+        if *pos != ends[i] {
+            return vec![Violation::new(
+                "wrong_consumed_count",
+                locus,
+                format!("after payload #{} the reader is at {}, the payload ends at {}", i + 1, pos, ends[i]),
+                sc,
+            )];
+        }
+    }
+    Vec::new()
+}
+
 fn gen(t: &mut Tape, _tier: Tier) -> Scenario {
+    if t.below(8) == 0 {
+        return gen_reused(t);
+    }
     let mut sc = Scenario::new("c11");
     let kind = t.below(8);
     let mut opts = OptSpec::default();
@@ -153,6 +341,9 @@ fn exec(sc: &Scenario, ctx: &mut Ctx) -> Vec<Violation> {
     let plen = sc.i("payload_len") as usize;
     let input = sc.b("input");
     let rk = sc.i("rk");
+    if sc.i("reused") == 1 {
+        return exec_reused(sc, ctx);
+    }
     match rk {
         RK_SLICE => ctx.stats.hit("arm.reader_slice"),
         RK_CURSOR => ctx.stats.hit("arm.reader_cursor"),
@@ -291,7 +482,7 @@ fn exec(sc: &Scenario, ctx: &mut Ctx) -> Vec<Violation> {
 pub static C11: SimpleProp = SimpleProp {
     id: "C11",
     level: "exploration",
-    rule: "one evaluation = one decode of (valid size-bounded LZMA payload under each header option, raw LZMA, or LZMA2 stream) followed by trailing bytes (none / zeros / random / 0xFF / a second payload), through a slice, Cursor, real std BufReader (capacity 1..200 over short reads) or SimSource; reader position afterwards must equal header + encoder-emitted payload length; chained: two payloads decoded back to back from one reader; conversely marker-terminated .lzma and .xz with >= 1 trailing byte must fail; distinct by scenario hash, all non-trivial",
+    rule: "one evaluation = one decode of (valid size-bounded LZMA payload under each header option, raw LZMA, or LZMA2 stream) followed by trailing bytes (none / zeros / random / 0xFF / a second payload), through a slice, Cursor, real std BufReader (capacity 1..200 over short reads) or SimSource; reader position afterwards must equal header + encoder-emitted payload length; chained: two payloads decoded back to back from one reader; reused: 2-3 raw payloads decoded in place by ONE raw decoder with reset(None)/reset(Some(size))/reset(Some(None)) (or Lzma2Decoder::reset) between them, position and bytes checked after each; conversely marker-terminated .lzma and .xz with >= 1 trailing byte must fail; distinct by scenario hash, all non-trivial",
     runs_quick: 60_000,
     runs_thorough: 3_000_000,
     both_profiles: false,
